@@ -105,3 +105,10 @@ reg("C07", "model_checking",
     "spec/MC_Search.tla) evaluated on every value the implementation returns, plus aliasing of returned slices",
     "Exhaustive over the bounded universe for the predicates; memory safety and termination are observations (guard pages, deadline).",
     "TLC-generated inputs; spec predicates evaluated on the implementation's results; fault observation", "DESIGN.md §6 C07")
+
+reg("C17", "translation_validation",
+    "The real literal extractor (prefixes, suffixes, inner, inner-for-reverse) is run on every TLC-enumerated pattern under a grid of extractor limits and its "
+    "output exported; TLC rebuilds the pattern, enumerates its bounded language with the reference semantics and checks necessity of every non-empty, "
+    "non-partial sequence on every match text and both obligations of Complete literals; each violation is re-confirmed against regexp and a fresh extractor run",
+    "Bounded language (match texts up to 6-7 symbols in one-symbol contexts); regexp arbitrates witnesses.",
+    "translation validation: exported artefact of the implementation checked by TLC against the TLA+ reference semantics", "DESIGN.md §6 C17")
